@@ -426,6 +426,18 @@ Theorem constify_keeps_immutable : forall v, imm v = true -> constify v = v.
 Proof. exact constify_id. Qed.
 Print Assumptions constify_keeps_immutable.
 
+(* the field normalisers: whatever the caller passes (bytearray, list of bytearrays, str), the
+   stored field is bytes resp. a tuple of bytes *)
+Theorem as_bytes_immutable : forall enc ml eok v r,
+  as_bytes enc ml eok v = Ok r -> exists b, r = VBytes b.
+Proof. exact as_bytes_imm. Qed.
+Print Assumptions as_bytes_immutable.
+
+Theorem as_tuple_immutable : forall enc ml eok v r,
+  as_tuple (as_bytes enc ml eok) v = Ok r -> imm r = true.
+Proof. exact as_tuple_bytes_imm. Qed.
+Print Assumptions as_tuple_immutable.
+
 (* finding: without the hypothesis `pre` the statement is false - objects unknown to constify
    (dns.edns.Option inside an OPT record) stay mutable *)
 Theorem constify_immutable_refuted : exists v, hashable v = true /\ imm (constify v) = false.
@@ -504,3 +516,9 @@ Example ex_constify :
   constify (VList [VByteArray [1]; VTuple [VList []]; VDict [(VInt 1, VList [VNone])]])
   = VTuple [VBytes [1]; VTuple [VTuple []]; VFrozen [(VInt 1, VTuple [VNone])]].
 Proof. split; reflexivity. Qed.
+
+Example ex_as_bytes :
+  as_bytes true (Some 255) true (VByteArray [1; 2]) = Ok (VBytes [1; 2]) /\
+  as_tuple (as_bytes true (Some 255) true) (VList [VByteArray [1]; VStr [97]]) = Ok (VTuple [VBytes [1]; VBytes [97]]) /\
+  as_tuple (as_bytes false None true) (VInt 3) = Internal eTypeError.
+Proof. repeat split. Qed.
